@@ -166,7 +166,7 @@ def run(prop, tier, seed):
     st, _ = C.model_check("Bits_L1.tla", bits_cfg(2 if tier == "quick" else 3), "bits_" + tier, workers=8, want_scripts=False)
     res["mc"] = st
     scripts = gen_scripts(seed, tier, want_par)
-    workdir = os.path.join(C.OUT, "work", key)
+    workdir = os.path.join(C.OUT, "work", "%s_%d" % (key, os.getpid()))
     C.sh(["rm", "-rf", workdir])
     r = C.exec_and_validate("join", scripts, workdir, MODULE, CFG, events_per_chunk=1500)
     res.update(n_scripts=r["n_scripts"], n_events=r["n_events"], wall_s=r["wall_s"])
